@@ -8,6 +8,7 @@ from vf import sched as S
 
 
 class _DfsPolicy:
+  handles_expiry = True
 
   def __init__(self, prefix):
     self.prefix = prefix
@@ -18,12 +19,15 @@ class _DfsPolicy:
       want = self.prefix[self.i]
       self.i += 1
       for s in enabled:
-        if s.name == want:
+        if s.label == want:
           return s
-      raise S.ReplayDivergence('wanted %s, enabled %s' % (want, [s.name for s in enabled]))
+      raise S.ReplayDivergence('wanted %s, enabled %s' % (want, [s.label for s in enabled]))
     self.i += 1
     for s in enabled:
-      if s is current:
+      if s is current and not s.expiring:
+        return s
+    for s in enabled:
+      if not s.expiring:
         return s
     return enabled[0]
 
@@ -32,7 +36,8 @@ DIVERGED = [0]
 
 
 def preemptions(decisions):
-  return sum(1 for names, pick, last in decisions if last in names and pick != last)
+  # letting a short timed wait expire early ("<name>~") costs one preemption too
+  return sum(1 for names, pick, last in decisions if (last in names and pick != last) or pick.endswith('~'))
 
 
 def explore(run_fn, bound, max_runs=100000, root=()):
